@@ -195,6 +195,9 @@ def process_object(data, dic):
             raise JSONParseError(str(e) + f" in object with ID `{id_}'") from None
 
         obj = klass.from_json_safe(data, dic)
+        if id_ in dic:
+            # an object nested in this one was registered with the same ID
+            raise JSONParseError(f"Object with ID `{id_}' already exists")
         dic[id_] = obj
     else:
         raise JSONParseError(
